@@ -281,6 +281,14 @@ pub fn tamper_stream(out: &mut Out, tier: &str, seed: u64, c02: bool, c17: bool)
                     out.case("stream.history", &[b(k2), b(n2), b(k2), b(n2), steps], &Outcome::Ok(vec![Tok::L(rr)]), true);
                 }
             }
+            // the same authentic ciphertext presented twice: the second presentation is a changed stream (a replay)
+            if c02 {
+                let mut st = State::verif_from_parts(&k0, &n0);
+                let (r1, _, _) = d_pull(&mut st, &c, &ad, len);
+                let (r2, _, _) = d_pull(&mut st, &c, &ad, len);
+                out.search_evaluations += 2;
+                if r1.is_ok() && !r2.is_err() { out.hit("stream.pull.accepts-tampered.replay", format!("len {} adlen {}: the same ciphertext opened twice in a row ({})", len, adl, r2.class()), json!({"op":"stream.pull-twice","k":hx(&k0),"nonce":hx(&n0),"c":hx(&c),"ad":hx(&ad)})); }
+            }
             // the error a rejected pull returns must not depend on (or quote) what the rejected bytes decrypt to
             if c17 && len % 3 == 0 {
                 use dryoc::classic::crypto_secretstream_xchacha20poly1305::*;
